@@ -66,7 +66,9 @@ def observe_line(case):
 
 POOL = ['C', 'CC', 'O', 'N', 'CO', 'C=O', 'OC=O', 'CC(=O)O', '[Na+]', '[Cl-]', '[K+]', '[OH-]', 'C[O]', '[CH3]', 'C[CH2]', 'c1ccccc1', 'c1ccncc1', 'CCN(CC)CC',
         'ClCCl', 'BrC1CC1', 'C#N', '[NH4+]', 'OS(=O)(=O)O', 'CC(C)=O', 'C1CCOC1', 'Cc1ccccc1', '[Pd]', 'O=C(Cl)c1ccccc1', 'NCc1ccccc1', 'C[N+](C)(C)C', '[O-]C=O',
-        '[13CH4]', 'F/C=C/F', 'C[C@H](N)O', '[CH2:1]=[CH2:2]', '[CH3:3][OH:4]']
+        '[13CH4]', 'F/C=C/F', 'C[C@H](N)O', '[CH2:1]=[CH2:2]', '[CH3:3][OH:4]',
+        # ring-closure bond symbols at one digit, at both, and contradicting ones (the molecule reader and the reaction reader share the rule)
+        'C=1CCCCC1', 'C1CCCCC=1', 'C=1CCCCC=1', 'C=1CCCCC-1', 'C#1CCCCCCC=1', 'c:1ccccc1', 'C-1CC1', 'C%10CC%10', 'C=%11CCCC%11']
 
 
 def gen_lines(rnd, n):
@@ -253,6 +255,7 @@ def run(ck):
         ck.validate('generated', 'Trace_Gen', gen, recs)
     # line level: reactions, dots, CXSMILES radicals and fragment groups
     lines = gen_lines(rnd, 1500 if ck.quick else 20000)
+    lines += [f'{a}>{b}>{c}' for a in ('C=1CCCCC1', 'C1CCCCC=1', 'C=1CCCCC-1', 'CC') for b in ('', 'OC1CCCCC=1', 'C=1CC#1') for c in ('C1CCCCC1', 'C=1CCCCC=1', 'C-1CC=1')]
     lines += ['C>>C', 'C>C', 'C>>>C', '>>C', 'C>>', '>C>', '>>', 'C.C>>C', 'CC[O] |^1:2|', 'CC[O] |^1:3|', 'C[CH2] |^1:1|', '[CH3].[CH3] |^1:0,1|',
               'C>O>CN |^1:3|', 'C>O>CN |^1:1|', 'C.O>N.[Na+]>CO.Cl |f:0.1,2.3,4.5|', '[Na+].[Cl-]>>[Na+].[Cl-] |f:0.1,2.3|', 'C.C.C>>C |f:0.2|',
               'C>>C |f:0.1|', 'C.[O]>>C[O] |^1:1,3|', 'C[O] |^1:1,1|', 'C |^1:0|', 'C |^1:5|', 'C.C |f:0.1|', '[CH3:1][OH:2]>>[CH3:1].[OH2:2]']
